@@ -1,15 +1,16 @@
 #!/bin/bash
-# usage: collect_benign.sh C13 C09 ...   -- verify each agent's benign edits from /tmp/wt5 and file them as /verif/benign/<ID>-bN
+# usage: collect_benign.sh <worktree-root e.g. /tmp/wt6> <name-prefix e.g. r6> C13 C09 ...   -- verify each agent's benign edits and file them as /verif/benign/<ID>-<prefix>bN
+root=$1; pre=$2; shift 2
 mkdir -p /verif/benign
 for id in "$@"; do
   for b in b1 b2 b3 b4; do
-    [ -f /tmp/wt5/$id/_benign/$b/meta.json ] || continue
-    ( /verif/tools/verify_benign.py /tmp/wt5/$id/_benign/$b $id $b > /tmp/vbenign_${id}_${b}.log 2>&1
-      tail -1 /tmp/vbenign_${id}_${b}.log | cut -c1-300 ) &
+    [ -f $root/$id/_benign/$b/meta.json ] || continue
+    ( /verif/tools/verify_benign.py $root/$id/_benign/$b $id ${pre}$b > /tmp/vbenign_${id}_${pre}${b}.log 2>&1
+      tail -1 /tmp/vbenign_${id}_${pre}${b}.log | cut -c1-300 ) &
   done
   wait
 done
 for id in "$@"; do
-  n=$(ls -d /verif/benign/$id-b* 2>/dev/null | wc -l)
-  echo "$id: $n benign edits filed"
+  n=$(ls -d /verif/benign/$id-${pre}b* 2>/dev/null | wc -l)
+  echo "$id: $n benign edits filed (${pre})"
 done
